@@ -1,0 +1,28 @@
+//go:build verif
+
+package cl
+
+// Step counter for the runtime monitors under /verif (build tag verif).
+// Monitors drive one compilation at a time per process.
+
+// VerifBudgetExceeded is the panic value raised when the step budget is exhausted.
+type VerifBudgetExceeded struct{ Steps int64 }
+
+var (
+	verifSteps  int64
+	verifBudget int64 // 0 = unlimited
+)
+
+// VerifReset sets the step budget (0 = unlimited) and clears the counter.
+func VerifReset(budget int64) { verifSteps, verifBudget = 0, budget }
+
+// VerifSteps returns the number of steps since the last reset.
+func VerifSteps() int64 { return verifSteps }
+
+func verifStep() {
+	verifSteps++
+	if verifBudget > 0 && verifSteps > verifBudget {
+		verifBudget = 0
+		panic(VerifBudgetExceeded{verifSteps})
+	}
+}
